@@ -368,3 +368,41 @@ def split_wait_arithmetic(ctx):
     return [("first_part_fills_the_piece", hyp, first.v == rem, f"`{_ast.unparse(waits[0][1])}` == remaining capacity"),
             ("carried_part_is_positive", hyp, second.v > 0, f"`{_ast.unparse(waits[1][1])}` > 0"),
             ("parts_add_up", hyp, first.v + second.v == t, "the two waits add up to the wait that was cut")]
+
+
+@lemma("cutoff_arithmetic", ["C18"])
+def cutoff_arithmetic(ctx):
+    """`AbsoluteSequence.cutoff` on its real statements (read on every run): the test that selects a closed note is `duration > maximum_length`
+    (exactly the notes longer than m), the selected note's end becomes onset + reduced_length (so it lasts exactly r), and the statement
+    writes the note-off only (the onset is not an assignment target)."""
+    import ast as _ast
+    from pyvc.engine import Exec, State, mk_heap
+    from pyvc.values import Num
+    fn, _ = ctx.sources.find("AbsoluteSequence.cutoff")
+    test, assign = None, None
+    for n in _ast.walk(fn):
+        if isinstance(n, _ast.If) and "maximum_length" in _ast.unparse(n.test) and test is None:
+            test = n.test
+            for x in n.body:
+                if isinstance(x, _ast.Assign) and "reduced_length" in _ast.unparse(x.value):
+                    assign = x
+    if test is None or assign is None or len(assign.targets) != 1:
+        raise KeyError("cutoff: selecting test / shortening assignment not found")
+    tgt = _ast.unparse(assign.targets[0])
+    sub = {"message_pairing[1].time": "off_t", "message_pairing[0].time": "on_t"}
+
+    def norm(node):
+        txt = _ast.unparse(node)
+        for a, b in sub.items():
+            txt = txt.replace(a, b)
+        return _ast.parse(txt, mode="eval").body
+    on_t, off_t, m, r = z3.Ints("on_t off_t maximum_length reduced_length")
+    X = Exec(ctx, "lemma", None, silent=True)
+    st = State({}, mk_heap(ctx), [], {})
+    st.env = {"on_t": Num(on_t), "off_t": Num(off_t), "maximum_length": Num(m), "reduced_length": Num(r)}
+    selected = X.truth(X.ev(norm(test), st), st)
+    new_off = X.ev(norm(assign.value), st).v
+    hyp = list(st.pc)
+    return [("selects_exactly_the_longer_notes", hyp, selected == (off_t - on_t > m), f"`{_ast.unparse(test)}`  <=>  duration > maximum"),
+            ("shortened_to_the_replacement", hyp, new_off - on_t == r, f"`{tgt} = {_ast.unparse(assign.value)}`: the note then lasts exactly reduced_length"),
+            ("writes_the_note_off_only", hyp, z3.BoolVal(tgt == "message_pairing[1].time"), f"assignment target is `{tgt}`")]
